@@ -609,3 +609,62 @@ func ZZ_C11_sameInstanceAcrossARoleChange() {
 	nondet.Reach("C11.same-instance.owner-read-rejected", readFailed)
 }
 
+
+// ZZ_C11_canaryRoleFaults: "if any single API call made during a reconcile fails ... none of the safety
+// properties (one pod per node ...) is violated at any intermediate point" in the canary role: the canary
+// node holds a pod of the active template (canary start), a canary pod already, or nothing; node1 runs
+// the active template.  Three syncs of the canary replica set, one minute apart, the first with every
+// write arbitrarily rejected / applied-with-answer-lost / fine, the others fault-free.  After every sync
+// each node holds at most one live daemon pod, the pod of node1 is never touched, and in the end the
+// canary node runs exactly the canary pod.
+func ZZ_C11_canaryRoleFaults() {
+	c, ds, rsNew, rsOld := zzStore(2)
+	ds.Spec.Strategy.Canary = &datadoghqv1alpha1.ExtendedDaemonSetSpecStrategyCanary{}
+	datadoghqv1alpha1.DefaultExtendedDaemonSetSpec(&ds.Spec, datadoghqv1alpha1.ExtendedDaemonSetSpecStrategyCanaryValidationModeAuto)
+	ds.Status.ActiveReplicaSet = rsOld.Name
+	ds.Status.Canary = &datadoghqv1alpha1.ExtendedDaemonSetStatusCanary{ReplicaSet: rsNew.Name, Nodes: []string{zzNodeName(0)}}
+	switch nondet.String("canaryNode.pod", "none", "active-template", "canary") {
+	case "active-template":
+		c.Pods = append(c.Pods, zzPod("old-node0", zzNodeName(0), zzOldRS, zzHashOld, 0, corev1.PodRunning, true, nondet.Base().Add(-3600*1e9)))
+	case "canary":
+		c.Pods = append(c.Pods, zzPod("canary-node0", zzNodeName(0), zzRSName, zzHashNew, 0, corev1.PodRunning, true, nondet.Base().Add(-60*1e9)))
+	}
+	c.Pods = append(c.Pods, zzPod("old-node1", zzNodeName(1), zzOldRS, zzHashOld, 0, corev1.PodRunning, true, nondet.Base().Add(-3600*1e9)))
+	onePodPerNode := func(tag string) {
+		held := map[string]int{}
+		for _, p := range c.Pods {
+			if p.DeletionTimestamp == nil && p.Labels[datadoghqv1alpha1.ExtendedDaemonSetNameLabelKey] == zzEDSName {
+				held[fakeapi.PodNode(p)]++
+			}
+		}
+		for i := 0; i < 2; i++ {
+			nondet.Assert("C11.canary-role.one-pod-per-node"+tag, held[zzNodeName(i)] <= 1)
+		}
+	}
+	for round := 0; round < 3; round++ {
+		c.InjectFaults = round == 0
+		_, err := zzReconcile(zzReconciler(c, false), zzNS, rsNew.Name)
+		if round > 0 {
+			nondet.Assert("C11.canary-role.fault-free-sync-ok", err == nil)
+		}
+		onePodPerNode(".after-sync")
+		zzKubelet(c)
+	}
+	c.InjectFaults = false
+	for _, e := range c.Log {
+		if e.Kind == "Pod" && (e.Verb == "delete" || e.Verb == "update" || e.Verb == "patch") {
+			nondet.Assert("C11.canary-role.other-node-untouched", e.Name != "old-node1")
+		}
+		if e.Kind == "Pod" && e.Verb == "create" {
+			nondet.Assert("C11.canary-role.creates-only-on-the-canary-node", e.Node == zzNodeName(0))
+		}
+	}
+	canaryPods := 0
+	for _, p := range c.Pods {
+		if fakeapi.PodNode(p) == zzNodeName(0) && p.Labels[datadoghqv1alpha1.ExtendedDaemonSetReplicaSetNameLabelKey] == rsNew.Name {
+			canaryPods++
+		}
+	}
+	nondet.Observe("canaryPods", canaryPods)
+	nondet.Assert("C11.canary-role.converges", canaryPods == 1 && len(c.Pods) == 2)
+}
